@@ -1,6 +1,6 @@
 (** C04: the canonical framing used by the executable interface is one of the framings the theorems
     quantify over; the toy codec of the executable interface is an honest codec; the witness for the
-    known class (finding F15); mpsc / oneshot composed with the base layer. *)
+    former finding F15 as a positive example; mpsc / oneshot composed with the base layer. *)
 From Remoc Require Import Lib.Base Chmux.Parse Chmux.Recv Rch.Base Rch.BaseProofs Rch.Mpsc Rch.MpscProofs Run.RunBase.
 
 (** * [att_frames] is a framing *)
@@ -96,55 +96,43 @@ Proof.
   - destruct (np =? 0); [change (len (@nil N)) with 0; lia|]. rewrite len_cons. change (len (@nil N)) with 0. lia.
 Qed.
 
-(** * the known class is real (finding F15)
+(** * the former finding F15: a complete encoding in an unfinished message is not delivered
 
     A 12-byte value is streamed ([max_data_size] 8); its [Serialize] implementation fails after the
-    last byte, so [send] reports [Serialize] and the message stays unfinished -- but the receiver's
-    deserializer thread has read a complete value.  When the pending [recv] is dropped and repeated, the
-    value is delivered. *)
-Definition f12_item : item :=
+    last byte, so [send] reports [Serialize] and the message stays unfinished -- although the receiver's
+    deserializer thread has read a complete value.  Before the repair of [rch/base/receiver.rs] the value
+    was delivered as soon as the feed loop noticed that the thread had ended (a pending [recv] dropped and
+    repeated).  Now the loop skips to the end of the message; the next value cancels the unfinished one. *)
+Definition f15_item : item :=
   {| ibytes := toy_bytes 7 0 0 12; iports := []; ser_fail := Some 12 |}.
-Definition f12_cfg : scfg := {| s_md := 8; s_chunk := 4; s_max := 1000 |}.
-Definition f12_sent := send_all f12_cfg 0%Z [(f12_item, None)].
-Definition f12_acts : list ract :=
-  map RFrame (flat_map (att_frames 4) (flat_map s_atts f12_sent)) ++ [RReenter].
+Definition f15_next : item :=
+  {| ibytes := toy_bytes 8 0 0 5; iports := []; ser_fail := None |}.
+Definition f15_cfg : scfg := {| s_md := 8; s_chunk := 4; s_max := 1000 |}.
+Definition f15_sent := send_all f15_cfg 0%Z [(f15_item, None); (f15_next, None)].
+(** the frames of the failed send, a repeated [recv], then the frames of the next send *)
+Definition f15_acts : list ract :=
+  map RFrame (flat_map (att_frames 4) (flat_map s_atts (firstn 1 f15_sent))) ++ [RReenter; RReenter] ++
+  map RFrame (flat_map (att_frames 4) (flat_map s_atts (skipn 1 f15_sent))) ++ [RReenter].
 
-Lemma f12_refuted :
-  map s_res f12_sent = [SErrSer] /\
-  map (cut_complete toy_decode) (map s_atts f12_sent) = [true] /\
-  snd (brun toy_decode toy_ports (binit 8 128 1000) f12_acts) = [ROk (toy_bytes 7 0 0 12)] /\
-  sent_ok f12_sent = [].
-Proof. vm_compute. auto. Qed.
+Lemma f15_repaired :
+  map s_res f15_sent = [SErrSer; SOk] /\
+  (* the unfinished message carries the complete encoding *)
+  map s_atts (firstn 1 f15_sent) = [[ADataCut (toy_bytes 7 0 0 12)]] /\ toy_decode (toy_bytes 7 0 0 12) = DOk /\
+  (* nothing is delivered for it, the neighbour arrives *)
+  snd (brun toy_decode toy_ports (binit 8 128 1000)
+         (map RFrame (flat_map (att_frames 4) (flat_map s_atts (firstn 1 f15_sent))) ++ [RReenter; RReenter])) = [] /\
+  snd (brun toy_decode toy_ports (binit 8 128 1000) f15_acts) = [ROk (toy_bytes 8 0 0 5)] /\
+  sent_ok f15_sent = [toy_bytes 8 0 0 5].
+Proof. vm_compute. repeat split; reflexivity. Qed.
 
-Lemma f12_honest : honest toy_decode toy_ports 128 f12_item.
-Proof.
-  split; [|split]; cbn [ibytes iports f12_item].
-  - intros q r. apply toy_prefix_incomplete; lia.
-  - reflexivity.
-  - change (len (@nil N)) with 0. lia.
-Qed.
-
-Lemma f12_framed : Framed (flat_map s_atts f12_sent) (frames_of f12_acts).
-Proof.
-  unfold f12_acts. assert (H : forall fs, frames_of (map RFrame fs ++ [RReenter]) = fs).
-  { intros fs. rewrite frames_of_app. cbn. rewrite app_nil_r.
-    induction fs as [|f fs IH]; [reflexivity|]. cbn [map frames_of flat_map app]. f_equal. exact IH. }
-  rewrite H. apply att_frames_Framed. vm_compute. repeat constructor.
-Qed.
-
-(** The full statement fails on the known class: an honest item, a framing of what its failed send
-    handed over, a schedule -- and the receiver obtains the value although the send did not return Ok. *)
-Lemma f12_witness :
-  exists c bd its acts,
-    Forall (honest toy_decode toy_ports 128) (map fst its) /\
-    Framed (flat_map s_atts (send_all c bd its)) (frames_of acts) /\
-    exists x, In x (send_all c bd its) /\ s_res x <> SOk /\
-              In (ROk (ibytes (s_item x))) (snd (brun toy_decode toy_ports (binit 8 128 1000) acts)).
-Proof.
-  exists f12_cfg, 0%Z, [(f12_item, None)], f12_acts. split; [constructor; [exact f12_honest|constructor]|].
-  split; [exact f12_framed|]. destruct f12_refuted as (_ & _ & Hr & _). rewrite Hr.
-  eexists. split; [left; reflexivity|]. split; [vm_compute; discriminate|]. left. reflexivity.
-Qed.
+(** the second witness: the credit runs out exactly before [finish] (12 credits for a 12-byte value) *)
+Definition f15_sent2 := send_all f15_cfg 0%Z [({| ibytes := toy_bytes 7 0 0 12; iports := []; ser_fail := None |}, Some 12)].
+Lemma f15_repaired2 :
+  map s_res f15_sent2 = [SCancelled] /\
+  map s_atts f15_sent2 = [[ADataCut (toy_bytes 7 0 0 12)]] /\
+  snd (brun toy_decode toy_ports (binit 8 128 1000)
+         (map RFrame (flat_map (att_frames 4) (flat_map s_atts f15_sent2)) ++ [RReenter; RReenter])) = [].
+Proof. vm_compute. repeat split; reflexivity. Qed.
 
 (** non-vacuity: three sends (buffered, streamed with a serialization failure after 10 bytes, streamed) *)
 Definition ex_its : list (item * option N) :=
@@ -157,7 +145,6 @@ Definition ex_acts : list ract := map RFrame (flat_map (att_frames 4) (flat_map 
 
 Lemma ex_run :
   map s_res ex_sent = [SOk; SErrSer; SOk] /\
-  map (cut_complete toy_decode) (map s_atts ex_sent) = [false; false; false] /\
   snd (brun toy_decode toy_ports (binit 8 128 1000) ex_acts) = [ROk (toy_bytes 1 0 0 6); ROk (toy_bytes 3 1 0 20)] /\
   sent_ok ex_sent = [toy_bytes 1 0 0 6; toy_bytes 3 1 0 20].
 Proof. vm_compute. auto. Qed.
@@ -190,7 +177,6 @@ Section Compose.
 
   Definition rs_ok (dflt : N) (x : rsender) : Prop :=
     Forall (honest decode ports_of dflt) (map fst (rs_its x)) /\
-    outside_known_class decode (rs_sent x) /\
     Framed (flat_map s_atts (rs_sent x)) (frames_of (rs_a1 x ++ rs_a2 x)).
 
   Definition rs_src md rmax dflt (x : rsender) : list mentry :=
@@ -217,10 +203,10 @@ Section Compose.
     - erewrite nth_indep with (d' := rs_src md rmax dflt x); [|rewrite map_length; apply nth_error_Some; congruence].
       rewrite map_nth. rewrite (nth_error_nth _ _ _ En).
       unfold rs_src. rewrite vals_entries.
-      rewrite Forall_forall in Hok. destruct (Hok x (nth_error_In _ _ En)) as (Hh & Hk & Hfr).
+      rewrite Forall_forall in Hok. destruct (Hok x (nth_error_In _ _ En)) as (Hh & Hfr).
       unfold rs_sent in *.
-      rewrite <- (base_success decode ports_of md rmax dflt (rs_cfg x) (rs_its x) (rs_bd x) Hh Hk).
-      rewrite <- (base_end_to_end decode ports_of md rmax dflt (rs_cfg x) (rs_its x) (rs_bd x) (rs_a1 x ++ rs_a2 x) Hh Hk Hfr).
+      rewrite <- (base_success decode ports_of md rmax dflt (rs_cfg x) (rs_its x) (rs_bd x) Hh).
+      rewrite <- (base_end_to_end decode ports_of md rmax dflt (rs_cfg x) (rs_its x) (rs_bd x) (rs_a1 x ++ rs_a2 x) Hh Hfr).
       apply oks_prefix. apply brun_prefix.
     - rewrite nth_overflow; [exists []; reflexivity|]. rewrite map_length. now apply nth_error_None.
   Qed.
